@@ -24,8 +24,16 @@ class Run:
                 "stderr": self.err[:600].decode("utf-8", "replace"), "timed_out": self.timed_out}
 
 
-def sfs(args, stdin=None, kind="release", env=None, timeout=30, exe=None, cwd=None):
-    """Run `sfs args...`; stdin: bytes or None (=/dev/null). Never raises on failure of the tool."""
+def _limit_as(nbytes):
+    def f():
+        import resource
+        resource.setrlimit(resource.RLIMIT_AS, (nbytes, nbytes))
+    return f
+
+
+def sfs(args, stdin=None, kind="release", env=None, timeout=30, exe=None, cwd=None, mem_limit=None):
+    """Run `sfs args...`; stdin: bytes or None (=/dev/null). Never raises on failure of the tool.
+    mem_limit: optional RLIMIT_AS in bytes for the child."""
     exe = exe or build.cli(kind)
     e = dict(BASE_ENV)
     if env:
@@ -33,7 +41,8 @@ def sfs(args, stdin=None, kind="release", env=None, timeout=30, exe=None, cwd=No
     argv = [exe] + [str(a) for a in args]
     try:
         p = subprocess.run(argv, input=stdin if stdin is not None else b"", stdout=subprocess.PIPE,
-                           stderr=subprocess.PIPE, env=e, timeout=timeout, cwd=cwd)
+                           stderr=subprocess.PIPE, env=e, timeout=timeout, cwd=cwd,
+                           preexec_fn=_limit_as(mem_limit) if mem_limit else None)
         return Run(argv[1:], p.returncode, p.stdout, p.stderr)
     except subprocess.TimeoutExpired as t:
         return Run(argv[1:], None, t.stdout or b"", t.stderr or b"", timed_out=True)
